@@ -8,8 +8,9 @@
    tied by the correspondence run) on the reference instance of the curve (ref_prims: Prim/Secp256k1.v over Z).
    Explicit premises of the completeness statements:
      secp256k1_group  (Proofs/EcdsaSecp.v) — on valid points the concrete formulas form an abelian group with
-                      the Z-action smul, n is prime, G has order exactly n, lift_x inverts (x, parity of y);
-                      NOT proved (no elliptic-curve library; associativity is out of reach here);
+                      the Z-action smul, G has order exactly n, lift_x inverts (x, parity of y);
+                      NOT proved (no elliptic-curve library; associativity is out of reach here); that n and p
+                      are prime IS proved (Proofs/SecpPrimes.v);
      nonce_x_small    — x(k*G) < n for the RFC 6979 nonce k of this key and message (k256 never records the
                       x-reduced recovery bit, so recovery of the other 2^-128 fraction fails in the library too).
    Soundness for other messages / other keys is _partial: it holds modulo collisions of SHA-256d (mod n) and of
